@@ -71,8 +71,9 @@ SocketPrivate::SocketPrivate(Socket *httpSocket, QTcpSocket *tcpSocket)
     connect(socket, &QTcpSocket::readChannelFinished, this, &SocketPrivate::onReadChannelFinished);
     connect(socket, &QTcpSocket::disconnected, q, &Socket::disconnected);
 
-    // Process anything already received by the socket
-    onReadyRead();
+    // Process anything already received by the socket once construction
+    // has completed (the Socket is not fully initialized at this point)
+    QMetaObject::invokeMethod(this, "onReadyRead", Qt::QueuedConnection);
 }
 
 QByteArray SocketPrivate::statusReason(int statusCode) const
